@@ -96,9 +96,19 @@ MANIFEST = dict(
 def _race_run(a, lib):
     """Build the harness with -race and run a subset of the scenarios. Returns (violation_path_or_None, info)."""
     repo, build = lib.REPO, lib.BUILD
-    alt = "" if repo == "/repo" else "_" + hashlib.sha1(repo.encode()).hexdigest()[:8]
-    out = os.path.join(build, "h_verif_c28_race" + alt)
-    ovj = os.path.join(build, "overlay_c28race_%s.json" % hashlib.sha1(repo.encode()).hexdigest()[:8])
+    # everything of this run lives in a directory of its own (several checks of C28 may run at the same time)
+    import tempfile, shutil
+    wd = tempfile.mkdtemp(prefix="run_C28_race_", dir=build)
+    try:
+        return _race_run_in(a, lib, wd)
+    finally:
+        shutil.rmtree(wd, ignore_errors=True)
+
+
+def _race_run_in(a, lib, wd):
+    repo, build = lib.REPO, lib.BUILD
+    out = os.path.join(wd, "h_verif_c28_race")
+    ovj = os.path.join(wd, "overlay.json")
     subprocess.run([sys.executable, os.path.join(lib.ROOT, "harness", "mkoverlay.py"), ovj],
                    env=dict(os.environ, VERIF_REPO=repo), check=False)
     rc, o = lib.sh([lib.go_bin(), "build", "-race", "-tags", "verif", "-overlay", ovj, "-o", out, "./cmd/verif_c28"],
@@ -106,8 +116,6 @@ def _race_run(a, lib):
     if rc != 0:
         p = lib.write_replay("C28", "racebuild", [], ["property=C28 the -race build of the harness failed"] + o.splitlines()[-30:])
         return p, dict(built=False), " no-failing-input-found"
-    wd = os.path.join(build, "run_C28_race" + alt)
-    os.makedirs(wd, exist_ok=True)
     cases = os.path.join(wd, "cases.txt")
     if a.replay:
         lines = [l for l in open(a.replay) if l.strip() and not l.startswith("#")]
